@@ -116,11 +116,10 @@ def process(pid, module, tier, o, findings_db):
         path, outcome, observed = do_replay(pid, module, tier, o, None, main["args"])
         rec["replays"] += 1
         if outcome == "fails":
-            rec["counterexample"] = main["args"]
+            # the concrete inputs of the aborted path do fail (by not returning, or for an ordinary reason): handled as any
+            # other counterexample below (listed findings included)
             rec["cex_message"] = "path ended by the per-path CPU budget"
-            rec["replay"] = {"path": path, "outcome": outcome, "observed": observed[:1500]}
-            events.append(("VIOLATION", o.name, path))
-            main = dict(main, status="REFUTED-HANG")
+            main = dict(main, hang_candidate=False)
         else:
             # merely slow under the engine: analyse again without the guard (other paths may still hold a counterexample)
             w = run_worker(module, tier, o, ["main", "twin"] if o.twin else ["main"], hard, {"VERIF_NO_HANG_GUARD": "1"})
